@@ -19,6 +19,7 @@ RULE = (
     "x adjust x dyadic frames; every window of every call is compared point by point with the exact closed-square predicate "
     "around the returned centre, centres with the exact rational grid; expanding_window: centres on/off the lattice x every "
     "ordering of size lists. Non-trivial: at least one non-empty and one partial window."
+    " Added axes: Fortran / integer / repeated-position forms, regions larger than the data with sizes up to the region's smaller side, frames 2^-30 and (2^-8, 2^20), frame (1, 7.46e6) with float64 / float32 coordinates, numpy-array arguments."
 )
 ASSUMPTIONS = ["a point within 4 ulp of a window edge may go either way unless the coordinate difference is exact in floating point",
                "window grids with one window per axis given as shape=(1, .) are not explored (verde's overlap warning divides by zero there)"]
